@@ -160,11 +160,15 @@ func fmtNum(f float64) string {
 // number it denotes, strings quoted, anything that is not plain data tagged with its Go type.
 func Render(v any) string {
 	var sb strings.Builder
+	onPath = map[uintptr]bool{}
 	render(&sb, v, 0)
 	return sb.String()
 }
 
-const maxDepth = 40
+// maps on the current path (cycle detection)
+var onPath map[uintptr]bool
+
+const maxDepth = 24
 
 func render(sb *strings.Builder, v any, depth int) {
 	if depth > maxDepth {
@@ -179,6 +183,15 @@ func render(sb *strings.Builder, v any, depth int) {
 	case string:
 		sb.WriteString(strconv.Quote(t))
 	case map[string]any:
+		if t != nil {
+			ptr := reflect.ValueOf(t).Pointer()
+			if onPath[ptr] {
+				sb.WriteString("<cycle>")
+				return
+			}
+			onPath[ptr] = true
+			defer delete(onPath, ptr)
+		}
 		keys := make([]string, 0, len(t))
 		for k := range t {
 			keys = append(keys, k)
